@@ -33,6 +33,20 @@ source_for(const std::string &profile, const std::string &prop, int tier)
                         }
                 };
         }
+        if (profile == "guard") {
+                // C07: besides ordinary schedules, the segmented entry points (SGL streams, segment lists, init/update/finalize)
+                // with every segment in its own guarded object, and the direct/sync-burst entry points
+                ProfileCfg pe = profile_by_name("entry", prop, tier), pg = profile_by_name("sgl", prop, tier);
+                pe.oracles = pg.oracles = pc.oracles;
+                pe.guard = pg.guard = true;
+                s.make = [pc, pe, pg](uint64_t run_seed, uint64_t idx) {
+                        switch (idx % 6) {
+                        case 2: return gen_plan_entry(pe, run_seed);
+                        case 4: return gen_plan_sgl(pg, run_seed);
+                        default: return gen_plan(pc, run_seed);
+                        }
+                };
+        }
         if (profile == "entry")
                 s.make = [pc](uint64_t run_seed, uint64_t) { return gen_plan_entry(pc, run_seed); };
         if (profile == "keyprep")
